@@ -197,7 +197,13 @@ theorem expandEscapes_other (c : Char) (s : Str) (h : simpleEscape c = none) (h0
     expandEscapes ('\\' :: c :: s) = '\\' :: expandEscapes (c :: s) :=
   expandEscapes_other_lemma c s h h0
 
-/-- XSI octal escapes `\\0ddd` (exactly three octal digits, value ≤ 255) -/
+/-- XSI octal escapes: `\\0ddd` with three octal digits of value ≤ 255 denotes that code point -/
+theorem expandEscapes_octal (d1 d2 d3 : Char) (s : Str)
+    (h1 : isOct d1 = true) (h2 : isOct d2 = true) (h3 : isOct d3 = true) (hv : octVal [d1, d2, d3] ≤ 255) :
+    expandEscapes ('\\' :: '0' :: d1 :: d2 :: d3 :: s) = Char.ofNat (octVal [d1, d2, d3]) :: expandEscapes s :=
+  expandEscapes_octal_lemma d1 d2 d3 s h1 h2 h3 hv
+
+/-- non-vacuity and the failure cases (fewer than three digits, value > 255: the rewritten match is kept) -/
 example : expandEscapes ['\\', '0', '1', '2', '3', 'Z'] = ['S', 'Z'] := by decide
 example : expandEscapes ['\\', '0', '1', '2'] = ['\\', '1', '2'] := by decide
 example : expandEscapes ['\\', '0', '7', '7', '7'] = ['\\', '7', '7', '7'] := by decide
